@@ -76,6 +76,9 @@ def build(prog, x0=None, via_ctor=False, initialize=True, ns=None, rules=()):
                 if sname(rx["law"][key]) not in decl:
                     decl.append(sname(rx["law"][key]))
     ic = {sname(i + 1): (f(x0[i]) if x0 is not None else 0.0) for i in range(ns)}
+    if rules:
+        # a name in a rule that is not yet a species is taken for a parameter: declare every species first
+        decl = decl + [s for s in ic if s not in decl]
     if via_ctor:
         m = Model(species=decl, reactions=rtuples, parameters=list(params.items()), rules=list(rules),
                   initial_condition_dict=ic, initialize_model=False)
